@@ -44,6 +44,10 @@ def tok_item(rng, voc, first_special):
         if rng.random() < 0.4:
             c = rng.randrange(0, n - 1)
             parts.append((c, c))
+        if rng.random() < 0.3 and b > a:
+            # a range nested in / overlapping the first one, listed after or before it
+            c = rng.randint(a, b)
+            parts.insert(rng.randint(0, len(parts)), (c, min(n - 2, c + rng.randint(0, 2))))
         txt = ",".join("%d-%d" % p if p[0] != p[1] else "%d" % p[0] for p in parts)
         ids = sorted({x for (lo, hi) in parts for x in range(lo, hi + 1)})
         return "<[%s]>" % txt, ids
@@ -51,8 +55,30 @@ def tok_item(rng, voc, first_special):
         # negated list: everything else, including (by its denotation) the EOS id
         a = rng.randrange(0, n - 1)
         b = min(n - 1, a + rng.randint(0, 6))
-        ids = [x for x in range(n) if not (a <= x <= b)]
-        return "<[^%d-%d]>" % (a, b), ids
+        parts = [(a, b)]
+        # more ranges in the list, in any order: nested in the first, overlapping it, adjacent to it, or elsewhere
+        for _ in range(rng.choice([0, 0, 1, 1, 2])):
+            k = rng.random()
+            if k < 0.4 and b > a:
+                c = rng.randint(a, b)
+                d = rng.randint(c, b)
+            elif k < 0.6:
+                c = rng.randint(a, b)
+                d = min(n - 1, b + rng.randint(0, 3))
+            elif k < 0.75:
+                c = min(n - 1, b + 1)
+                d = min(n - 1, c + rng.randint(0, 2))
+            else:
+                c = rng.randrange(0, n - 1)
+                d = min(n - 1, c + rng.randint(0, 3))
+            parts.insert(rng.randint(0, len(parts)), (c, d))
+        if rng.random() < 0.25:
+            # the whole text range first, then something inside it
+            parts = \
+                [(0, first_special - 1), (lambda c: (c, min(first_special - 1, c + rng.randint(0, 2))))(rng.randrange(0, first_special))]
+        ids = [x for x in range(n) if not any(lo <= x <= hi for lo, hi in parts)]
+        txt = ",".join("%d-%d" % p if p[0] != p[1] else "%d" % p[0] for p in parts)
+        return "<[^%s]>" % txt, ids
     return "<[*]>", list(range(n))
 
 
